@@ -345,7 +345,9 @@ Print Assumptions C06_mixed_evaluation_is_exact.
 
 (* ... and the premises hold in every world a growing MIXED network reaches (histories run5_ok: new properties, assignments, reads, plain
    observers, evaluator objects, fresh properties bound immediately or through an explicit evaluator - reading any existing properties,
-   bound or not, in either mode -, evaluateAll of explicit evaluators) *)
+   bound or not, in either mode -, evaluateAll of explicit evaluators, reset(), assignment from another property (p = q.get()), observers
+   being disconnected again, destruction of properties that no live binding reads - plain, observed, bound immediately or through an
+   evaluator (whose registration then goes) *)
 Theorem C06_mixed_network_caches_always_right :
   forall fn rtl fuel ops, PropMixedLazy.run5_ok fn rtl fuel world0 ops -> PropMixedLazy.ML fn (run fn rtl fuel ops).
 Proof. exact PropMixedLazy.mixed_reachable_ML. Qed.
@@ -403,6 +405,21 @@ Example C06_mixed_example :
   PropMixedLazy.run5_ok fn true 8 world0 (ops ++ [BevEvalAll 0; PReset 2; PSet 0 9%Z WSet; BevEvalAll 0]) /\
   map (values (run fn true 8 ops)) [1; 2; 3] = [Some 8%Z; Some 4%Z; Some 7%Z] /\
   map (values (run fn true 8 (ops ++ [BevEvalAll 0]))) [1; 2; 3] = [Some 8%Z; Some 10%Z; Some 13%Z].
+Proof.
+  split; [|split; vm_compute; reflexivity].
+  cbn [app PropMixedLazy.run5_ok PropMixedLazy.grow_op5]. repeat split; try (vm_compute; reflexivity); try (exists 1; split; [vm_compute; reflexivity|discriminate]).
+Qed.
+
+(* non-vacuity with destruction in a MIXED world: 1 = f1(0) immediate, 2 = f2(1) through the evaluator, 3 = f3(2) immediate, 4 = f4(0) through
+   the evaluator; the unread properties 3 (immediately bound) and 4 (evaluator-driven: its registration goes) are destroyed, the input is
+   assigned, and one evaluateAll brings 2 up to date *)
+Example C06_mixed_destruction_example :
+  let fn := fun (f : nat) (l : list Z) => Some (fold_right Z.add (Z.of_nat f) l) in
+  let ops := [PNew 0 1%Z; BevNew 0; PBind 1 (EOp1 1 (EProp 0)) MImmediate; PBind 2 (EOp1 2 (EProp 1)) (MEvaluator 0);
+              PBind 3 (EOp1 3 (EProp 2)) MImmediate; PBind 4 (EOp1 4 (EProp 0)) (MEvaluator 0); PDel 3; PDel 4; PSet 0 7%Z WSet] in
+  PropMixedLazy.run5_ok fn true 8 world0 (ops ++ [BevEvalAll 0]) /\
+  map (values (run fn true 8 ops)) [1; 2; 3; 4] = [Some 8%Z; Some 4%Z; None; None] /\
+  map (values (run fn true 8 (ops ++ [BevEvalAll 0]))) [1; 2] = [Some 8%Z; Some 10%Z].
 Proof.
   split; [|split; vm_compute; reflexivity].
   cbn [app PropMixedLazy.run5_ok PropMixedLazy.grow_op5]. repeat split; try (vm_compute; reflexivity); try (exists 1; split; [vm_compute; reflexivity|discriminate]).
